@@ -93,6 +93,9 @@ def main(tier):
     chk.rule("GUARD", "continuity / consistency rejections cannot be bypassed", floor=10)
     chk.rule("ORDER", "position bookkeeping runs once per transaction after find_received", floor=2)
     chk.rule("PF", "panic sites reachable from scanning entry points", floor=30)
+    chk.rule("PRIOR", "the start tree size is the predecessor's; the block's own metadata is only a "
+                      "fallback", floor=1)
+    chk.rule("ONCE", "output indices are assigned by one enumeration per transaction", floor=2)
     chk.rule("control", "positive controls", floor=1)
 
     ps_rules.ps1(chk, FILES)
@@ -108,6 +111,8 @@ def main(tier):
 
     guards(chk, w)
     order(chk, w)
+    prior_first(chk, w)
+    index_once(chk, w)
     pf(chk, w)
     chk.finish()
 
@@ -324,3 +329,135 @@ def pf(chk, w):
                      "ScanError" % (s["kind"], s["detail"]), loc, path[-4:])
     chk.ok("control", "panic inventory non-empty (%d sites)" % len(sites)) if sites else \
         chk.fail("control", "pf-empty", "no panic sites found at all: the inventory is blind")
+
+
+def prior_first(chk, w):
+    """tree-size continuity can only be checked if the start size comes from the PREDECESSOR when
+    it is known: every read of the block's own chain_metadata in tree_sizes_around must be
+    control-dependent on the prior size being absent (inside the default branch taken for None)"""
+    fs = [f for f in w.fns.values() if f.p.endswith("for_compact_block::tree_sizes_around")
+          and "::tests::" not in f.p]
+    if len(fs) != 1:
+        chk.fail("PRIOR", "tree_sizes_around/missing", "tree_sizes_around not found (%d)" % len(fs))
+        return
+    f = fs[0]
+    try:
+        ip, ifn = f.argnames.index("prior_block_metadata"), f.argnames.index("prior_tree_size")
+    except ValueError:
+        chk.fail("PRIOR", "tree_sizes_around/params", "parameters prior_block_metadata / "
+                 "prior_tree_size not found", f.span.loc())
+        return
+    du = defuse.DefUse(f.body)
+
+    def is_prior(o):
+        t = defuse.show(o)
+        return "arg%d" % ip in t and ("arg%d" % ifn in t or "prior_tree_size" in t)
+    clos = {c: w.fns[c] for c in w.reach([f.id], stop=lambda x: not (w.fns[x].is_closure() and
+                                                                      w.fns[x].root == f.id)
+                                          and x != f.id)[0] if c in w.fns}
+
+    def reads_meta(g):
+        out = []
+        for bi, blk in enumerate(g.body.blocks):
+            for s in blk.stmts:
+                if s.kind != "=":
+                    continue
+                pls = [o.place for o in s.rv.ops if o.kind in ("copy", "move")]
+                if s.rv.kind in ("ref", "disc"):
+                    pls.append(s.rv.place)
+                if any(".chain_metadata" in pl.proj for pl in pls):
+                    out.append((bi, s))
+        return out
+    # closures that run only when the prior size is None: the default argument of
+    # map_or_else / unwrap_or_else / or_else / ok_or_else whose receiver is the prior size
+    none_only = set()
+    some_arm_blocks = None
+    for bb, t in f.body.calls():
+        if t.callee.indirect is not None:
+            continue
+        n = t.callee.target_p()
+        if re.search(r"Option::<T>::(map_or_else|unwrap_or_else|or_else|ok_or_else)$", n) and t.args \
+                and is_prior(du.origin(t.args[0])):
+            dflt = defuse.strip_refs(du.origin(t.args[1]))
+            if dflt[0] == "agg" and dflt[1].startswith("closure:"):
+                root = dflt[1][len("closure:"):]
+                seen, _ = w.reach([root], stop=lambda x: not w.fns[x].is_closure())
+                none_only |= {x for x in seen if x in w.fns and w.fns[x].is_closure()}
+    # switches on the prior size in the main body: blocks dominated by the None arm
+    none_dom = set()
+    for sb, blk in enumerate(f.body.blocks):
+        if blk.term.kind != "switch":
+            continue
+        for s in blk.stmts:
+            if s.kind == "=" and s.rv.kind == "disc" and is_prior(du.origin_place(s.rv.place)):
+                arms = dict(blk.term.arms)
+                tgt = arms.get(0, blk.term.otherwise)
+                for b in range(len(f.body.blocks)):
+                    if f.body.dominates(tgt, b) and tgt != arms.get(1, -1):
+                        none_dom.add(b)
+    bad = []
+    nreads = 0
+    for g in [f] + [c for c in clos.values() if c.id != f.id]:
+        for bi, s in reads_meta(g):
+            nreads += 1
+            if g.id == f.id:
+                if bi not in none_dom:
+                    bad.append((g, s))
+            elif g.id not in none_only:
+                bad.append((g, s))
+    if nreads == 0:
+        chk.fail("PRIOR", "no-metadata-read", "tree_sizes_around no longer reads chain_metadata: the "
+                 "rule's anchor changed", f.span.loc())
+    elif bad:
+        g, s = bad[0]
+        chk.fail("PRIOR", "metadata-before-prior", "the block's own chain_metadata is consulted (in %s) "
+                 "without first establishing that the predecessor's tree size is unknown: a start size "
+                 "taken from the block's own metadata makes the end-of-block TreeSizeMismatch check "
+                 "vacuous" % g.p.rsplit("::", 2)[-1], s.span.loc())
+    else:
+        chk.ok("PRIOR", "all %d reads of chain_metadata in tree_sizes_around happen only when the "
+               "predecessor's tree size is absent" % nreads, sample=True)
+
+
+def index_once(chk, w):
+    """Batch::add_outputs numbers outputs from 0 by enumeration; a transaction's outputs must be
+    handed to it in ONE call (not chunk-wise in a loop), or batched results carry indices that
+    differ from the inline path"""
+    po = [f for f in w.fns.values() if re.search(r"scan::BatchRunner::<.*>::process_outputs$", f.p)]
+    ao = [f for f in w.fns.values() if re.search(r"scan::Batch::<.*>::add_outputs$", f.p)]
+    if len(po) != 1 or len(ao) != 1:
+        chk.fail("ONCE", "anchors", "process_outputs / Batch::add_outputs not found (%d, %d)"
+                 % (len(po), len(ao)))
+        return
+    import sqlfx
+    f = po[0]
+    calls = [(bb, t) for bb, t in f.body.calls() if t.callee.indirect is None and
+             t.callee.target_id() == ao[0].id]
+    cyc = sqlfx.cyclic_blocks(f.body)
+    inclos = [c for c in w.callees(f.id) if c in w.fns and w.fns[c].is_closure() and
+              any(t.callee.indirect is None and t.callee.target_id() == ao[0].id
+                  for _b, t in w.fns[c].body.calls())]
+    if len(calls) == 1 and calls[0][0] not in cyc and not inclos:
+        du = defuse.DefUse(f.body)
+        o = defuse.show(defuse.strip_refs(du.origin(calls[0][1].args[2])))
+        if "arg2" in o:
+            chk.ok("ONCE", "process_outputs passes the transaction's whole output sequence to "
+                   "Batch::add_outputs in a single call", sample=True)
+        else:
+            chk.fail("ONCE", "process_outputs/partial", "Batch::add_outputs receives %s, not the whole "
+                     "output sequence" % o, calls[0][1].span.loc())
+    else:
+        chk.fail("ONCE", "process_outputs/chunked", "Batch::add_outputs is called %d time(s)%s from "
+                 "process_outputs: outputs handed over in several calls are numbered from 0 each time, "
+                 "so batched results disagree with the inline path" %
+                 (len(calls) + len(inclos), " in a loop" if any(b in cyc for b, _ in calls) else ""),
+                 f.span.loc())
+    # add_outputs itself: the index is the enumeration index of its `outputs` parameter
+    g = ao[0]
+    en = [t for _b, t in g.body.calls() if t.callee.indirect is None and
+          re.search(r"::enumerate$", t.callee.target_p())]
+    if len(en) == 1:
+        chk.ok("ONCE", "Batch::add_outputs assigns indices by a single enumeration")
+    else:
+        chk.fail("ONCE", "add_outputs/enumerate", "Batch::add_outputs no longer numbers outputs by one "
+                 "enumeration (%d)" % len(en), g.span.loc())
